@@ -35,6 +35,12 @@ CHECKS = {
  "C18": ("model_checking", "TLC model checking of Xz.tla (UnsupportedRefused) + replay of every file using an unsupported feature",
          "All 16 check ids, foreign filter ids, two-filter chains, wrong filter property sizes, reserved bits and trailing bytes are enumerated on every bounded file by TLC and replayed: the real decoder must return an error.",
          "5 C18"),
+ "C02": ("model_checking", "TLC model checking of Lzma2.tla (Refines, Verdict) + replay of every exported well-formed chunk sequence + long spec-driven chunk sequences",
+         "TLC enumerates all format-valid chunk sequences of the bounded model (every reset class after every chunk kind, matches into data of earlier compressed and uncompressed chunks) and checks the transcribed chunk layer against the declarative chunk semantics; each behaviour is serialised by an encoder that carries state, rep distances and probabilities across chunks exactly as the format says, so a missing or spurious reset in the code desynchronises; long random chunk sequences add aged probabilities, size extremes and property changes.",
+         "5 C02"),
+ "C17": ("model_checking", "TLC model checking of Lzma2.tla (FramingRejected, Verdict) + replay of every chunk sequence ending in one framing fault",
+         "Each framing fault of the property statement is an action or a parameter of the chunk model; TLC checks that the transcribed decoder ends in an error for all of them at every chunk position of the bounded model and the harness replays each one into lzma2_decompress, the raw decoder and a one-block .xz.",
+         "5 C17"),
 }
 NOT_YET = {}
 props = [json.loads(l) for l in open(os.path.join(V, "properties.jsonl"))]
